@@ -146,37 +146,56 @@ class C15(Prop):
     thorough_n = 1500
     search_n = 300
     design_ref = "5/C15"
-    technique = ("Lean 4 proof (structural induction over all strings) + translator-generated file-system call-site "
-                 "inventory (clang AST) decided in Lean + unit- and system-style model/implementation correspondence "
-                 "with interposed libc")
-    level_text = ("Lean 4 theorems, for ALL strings, about an executable model of legal_path / check_valid_path / "
-                  "strip_name / inc_lexically_normal+inc_open / load_object name handling: legal_path accepts exactly the "
-                  "relative paths without '#', without a '..' component and with '.' only last; every path returned by "
-                  "check_valid_path, opened by load_object or by #include is relative and free of '..'. The inventory of "
-                  "every libc file call in lib/efuns, lib/lpc/object.c, src/simulate.c, lib/lpc/lex.c, binaries.c is "
-                  "regenerated from the clang AST on every run and a Lean `decide` shows each path argument flows from "
-                  "check_valid_path / legal_path / inc_open or is on a justified allow-list. The model is tied to the "
-                  "source by an exhaustive differential run of the real functions over {a . / #}^<=7 (quick) / <=9 "
-                  "(thorough) and by system-style runs of every file efun x path set x master policy with libc interposed; "
-                  "the Lean oracle judges every implementation trace")
+    technique = ("Lean 4 proof (structural induction over all strings; segment invariants over structured events) about "
+                 "executable models of the path filter and of every file efun incl. their C buffer lengths + translator-"
+                 "generated tables (clang AST call-site inventory, check_valid_path call table, literal fingerprints, "
+                 "buffer sizes and length guards, external callee list) decided in Lean + unit- and system-style "
+                 "model/implementation correspondence with libc interposed")
+    level_text = ("Lean 4 theorems, for ALL strings / policies / file-system contents, about an executable model of legal_path, "
+                  "check_valid_path, strip_name, inc_lexically_normal+inc_open, load_object name handling and of the 24 file "
+                  "efun entry points (incl. get_dir/stat with flag -1, rename/link/cp into directories, save/restore_object, "
+                  "the ed efun and its file commands): legal_path accepts exactly the relative paths without '#', without a "
+                  "'..' component and with '.' only last; every path returned by check_valid_path, opened by load_object or "
+                  "#include is relative and free of '..'; the oracle accepts the model trace of every efun call and editing "
+                  "session (model_satisfies_spec: each libc call is preceded by an approval of the right kind of exactly "
+                  "that path or a listed derivation of it); no path is cut after its approval and every path copy fits its C "
+                  "buffer (sizes and guards regenerated from the source); symbolic links created by link() have safe targets "
+                  "and expansion through such links stays confined. Regenerated on every run and decided in Lean: the "
+                  "inventory of every libc file call in lib/efuns, lib/lpc/object.c, src/simulate.c, lib/lpc/lex.c, "
+                  "binaries.c (each path argument flows from check_valid_path / a PRECEDING legal_path / inc_open or is on a "
+                  "justified allow-list), the libc function each function calls, every check_valid_path call's operation and "
+                  "write flag, the literals of 5 string functions, buffer sizes / guard expressions, and the list of external "
+                  "char*-taking callees (fail closed). The model is tied to the source by an exhaustive differential run of "
+                  "the real functions over {a . / #}^<=7 (quick) / <=9 (thorough) and by system-style runs of every file "
+                  "efun x path set (incl. lengths at the buffer boundaries) x master policy with libc interposed; the Lean "
+                  "oracle judges every implementation trace")
     level_note = ("trusted: Lean kernel; tools/c15_sites.py (clang AST walk; 'flows syntactically' as defined in its "
-                  "docstring, no dominance analysis); the correspondence harness (agreement only on generated inputs); "
-                  "symlinks inside the mudlib, the ed efun (needs an interactive user) and SaveBinaryDir are not exercised")
-    rule = ("cases = corpus + known-finding inputs + boundary (every file efun x curated path set x 9 master policies; "
-            "#include / inherit / load_object names) + EXHAUSTIVE batches of all strings over {a . / #} up to length 7 "
-            "(quick) / 9 (thorough) through legal_path, check_valid_path (allow, echo), strip_name and the include "
-            "normaliser (3 including files) + seeded random long paths and random efun calls; one batch case carries up "
-            "to 4096 strings; master policies: deny, allow, echo, fixed (legal / illegal / absolute / empty), raise, raiseon, "
-            "odd return types, read-only, write-only, per-path read-only, and a master without valid_read/valid_write; "
-            "editing sessions (ed + a/e/E/f/r/w/W/x/q/Q with and without names); every branch of the efun models is hit "
-            "(evidence histogram.branches); a case is non-trivial when its trace has >= 2 lines; distinct = distinct canonical trace")
-    not_covered = ["symbolic links inside the mudlib (link() creates them; resolution is the kernel's)",
-                   "the ed efun is not run (needs an interactive user); its fopen sites are covered by the inventory only",
-                   "SaveBinaryDir / #pragma save_binary (binaries.c) is inventoried but not exercised",
-                   "get_dir(path, -1) per-entry stat calls (readdir order) are not exercised",
-                   "Windows branches (':' test of legal_path, O_TEXT) are not modelled",
-                   "paths longer than the C buffers (MAX_PATH_LEN in get_dir/do_rename, buf[1024] in handle_include) "
-                   "are not generated; see notes/C15.md observation O-3"]
+                  "docstring: textual precedence of the legal_path guard, no path-sensitive dominance); props/c15.py "
+                  "gen_buffers (regex over declarations and guard texts); the correspondence harness (agreement only on "
+                  "generated inputs); saved binaries (SaveBinaryDir, #pragma save_binary) are OBSERVED only: the harness "
+                  "prints libc calls on unsafe paths and whether the binary exists, the call sequence of binaries.c is not "
+                  "modelled; symbolic links are not followed in a run (theorem symlinks_confined states what is promised)")
+    rule = ("cases = corpus + known-finding inputs (incl. the witnesses of the 13 repaired defects) + boundary (every file "
+            "efun x curated path set x master policies; get_dir/stat with flag -1 over listings and wildcard patterns; paths "
+            "of 1023..1026 / 1279..1282 / 1400 / 2000 characters through get_dir, rename, link, cp and the one-path efuns; "
+            "editor file names of 253..257 / 300 characters; read-then-write sequences; #include / inherit / load_object "
+            "names; #pragma save_binary objects with SaveBinaryDir) + EXHAUSTIVE batches of all strings over {a . / #} up "
+            "to length 7 (quick) / 9 (thorough) through legal_path, check_valid_path (allow, echo), strip_name and the "
+            "include normaliser (3 including files) + seeded random long paths, efun calls, editing sessions and object "
+            "names; one batch case carries up to 4096 strings; master policies: deny, allow, echo, fixed (legal / illegal / "
+            "absolute / empty / longer than the buffers), raise, raiseon, odd return types, read-only, write-only, per-path "
+            "read-only, and a master without valid_read/valid_write; every branch of the efun models is hit (evidence "
+            "histogram.branches); a case is non-trivial when its trace has >= 2 lines; distinct = distinct canonical trace")
+    not_covered = ["symbolic links are not FOLLOWED in a run (link() targets are judged; symlinks_confined is the theorem); "
+                   "links placed in the mudlib by the administrator are outside the statement",
+                   "SaveBinaryDir / #pragma save_binary (binaries.c): observed (unsafe paths, binary exists) but its call "
+                   "sequence is not modelled and not judged for mediation (no master consultation exists there)",
+                   "do_move's EXDEV fallback (copy + unlink) and save_ed_buffer (net-dead editor) are inventoried, not executed",
+                   "Windows branches (':' test of legal_path, O_TEXT, FindFirstFile) are not compiled here",
+                   "handle_include's buf[1024] / macro includes (C02) and log file names (lib/logger, configuration) are not "
+                   "part of this check",
+                   "listing the mudlib ROOT with flag -1 is compared only for the fixture's entries (the root holds the "
+                   "framework's own files)"]
     trusted = ["tools/c15_sites.py (call-site inventory translator)"]
 
     # ---- A: generated table ---------------------------------------------------
